@@ -54,11 +54,35 @@ def block_cases(rng, tier):
     return out
 
 
+def it_exec_cases(rng, tier):
+    """It.execute for every firstcond and mask on random CPSR values: ITSTATE = firstcond:mask, nothing else"""
+    t = statelib.load_index(C.GEN)['tables']
+    icpsr = t['sys_names'].index('cpsr')
+    out = []
+    for fc in range(16):
+        for mask in range(16):
+            for _ in range(1 if tier == 'quick' else 8):
+                st = statelib.reset_state(t, mem=[])
+                st['sys'][icpsr] = (rng.getrandbits(32) & ~0x1F) | rng.choice([16, 19, 31]) | (1 << 5)
+                st['opcode'], st['opcode_len'] = 0xBF00 | (fc << 4) | mask, 16
+                m = statelib.coq_machine(st)
+                out.append({'impl': {'kind': 'exec', 'state': st, 'module': 'it', 'cls': 'It', 'fields': [0, fc, mask]},
+                            'model': f'(enc_out enc_machine enc_unit (It_execute 0 {fc} {mask} {m}))',
+                            'spec': f'(enc_out enc_machine enc_unit (Ok tt (with_cpsr {m} (with_IT (cpsr_of {m}) ({fc} * 16 + {mask})))))',
+                            'label': 'it_execute', 'nontrivial': True})
+    return out
+
+
+PROPS_FILES = ['C08', 'C08it']
+
+
 def units():
     return [
         Unit('it_advance', ['C08_advance', 'C08_in_it_block', 'C08_last_in_it_block'], ['Proofs/CondProofs.v'],
              ['registers.Registers.it_advance', 'arm_v6.ArmV6.in_it_block', 'arm_v6.ArmV6.last_in_it_block'],
              adv_cases, IMPORTS, SPEC_IMPORTS),
+        Unit('it_instruction', ['C08_IT_execute'], ['Proofs/MiscProofs.v'], ['opcodes.abstract_opcodes.it.It.execute'], it_exec_cases,
+             IMPORTS, 'From ArmV Require Import Lib.PyZ Lib.Monad Spec.Pseudocode Spec.Arch Spec.MachineView.'),
         Unit('it_schedule', ['C08_schedule', 'C08_advance_all'], ['Proofs/ITSchedule.v'], [], None, IMPORTS, SPEC_IMPORTS),
         Unit('it_block_steps', [], [], [], block_cases, IMPORTS, 'From ArmV Require Import Spec.Pseudocode Spec.Arch Corr.ItBlockSpec.'),
     ]
